@@ -453,13 +453,28 @@ class BaseInterpolatableCompiler(BaseCompiler):
                     ufoSource.font = originalSources[ttfSource.name]
                 defaultGlyphset = originalGlyphsets[ufoDoc.findDefault().name]
                 self.logger.info(f"Compiling variable features for {vfName}")
-                self.compile_variable_features(ufoDoc, ttFont, defaultGlyphset)
+                # the pre-processed (filtered) glyphs of every source, for the feature
+                # writers to read anchors from instead of the unfiltered source layers
+                glyphSets = {
+                    source.name: originalGlyphsets[source.name]
+                    for source in ufoDoc.sources
+                    if source.name in originalGlyphsets
+                }
+                self.compile_variable_features(
+                    ufoDoc, ttFont, defaultGlyphset, glyphSets=glyphSets
+                )
 
-    def compile_variable_features(self, designSpaceDoc, ttFont, glyphSet):
+    def compile_variable_features(
+        self, designSpaceDoc, ttFont, glyphSet, glyphSets=None
+    ):
         default_ufo = designSpaceDoc.findDefault().font
 
         featureCompiler = VariableFeatureCompiler(
-            default_ufo, designSpaceDoc, ttFont=ttFont, glyphSet=glyphSet
+            default_ufo,
+            designSpaceDoc,
+            ttFont=ttFont,
+            glyphSet=glyphSet,
+            glyphSets=glyphSets,
         )
         featureCompiler.compile()
 
